@@ -692,8 +692,43 @@ def _establish(ctx: Ctx) -> None:
                 continue
             # integer row counts: len < 2, len <= 1, not len > 1 ... alike
             ok = ok or equivalent(c, ("le", rows, Poly.const(1)))[0]
-    ctx.ob(R, jf, jf.node, ok, "j_from_ode returns early unless the "
-           "simulation has at least two rows",
+    if not ok:
+        # the same guard written the other way round (`if 1 < rows:
+        # <compute>`): every path that reaches the kernel implies rows >= 2
+        from sa.lin import Lin, entails
+        from sa.pathinline import paths as _paths
+        from sa.symterm import c_not
+        try:
+            reach = []
+            for q in _paths(func_body(jf)):
+                if any("__j_from_ode_compute" in ast.unparse(e_.value)
+                       for e_ in q.events if e_.kind == "expr"
+                       and isinstance(e_.value, ast.AST)):
+                    facts = []
+                    for t_, tr_ in q.guards:
+                        c_ = jev.cond(Env(), t_)
+                        if not tr_:
+                            c_ = c_not(c_)
+                        for cc in (c_[1:] if c_[0] == "and" else [c_]):
+                            if cc[0] in ("lt", "le") and all(
+                                    isinstance(x_, Poly) for x_ in cc[1:]):
+                                d_ = cc[2] - cc[1]
+                                co = d_.terms.get(
+                                    ((rows.as_atom(), 1),), 0)
+                                k0 = d_.terms.get((), 0)
+                                if set(d_.terms) <= {(), ((rows.as_atom(),
+                                                           1),)}:
+                                    ln = Lin({"rows": co}, k0)
+                                    facts.append(
+                                        ln - 1 if cc[0] == "lt" else ln)
+                    reach.append(entails(facts, Lin.sym("rows") - 2))
+            ok = bool(reach) and all(reach)
+        except Exception:  # noqa: BLE001
+            ok = False
+    ctx.ob(R, jf, jf.node, ok, "j_from_ode reaches the kernel only when "
+           "the simulation has at least two rows" if ok else
+           "j_from_ode is not recognised as reaching the kernel only with "
+           "at least two rows",
            construct="j_from_ode row guard", nontrivial=False)
 
 
